@@ -29,6 +29,7 @@ type op struct {
 	Src  int    `json:"src,omitempty"`
 	Max  int    `json:"max,omitempty"`
 	Pfx  string `json:"prefix,omitempty"`
+	Dlm  string `json:"delimiter,omitempty"` // list: keys with this after the prefix are rolled into a common prefix
 }
 
 type caseA struct {
@@ -99,7 +100,9 @@ func execA(c caseA) (st stats, err error) {
 	seen := map[string]bool{}
 	status := "" // "", Enabled, Suspended
 	path := func(k int) string { return "/" + b + "/" + keyNames[k%len(keyNames)] }
-	body := func(o op) []byte { return append([]byte(fmt.Sprintf("v%d:", o.Seed)), s3c.GenBytes(o.Seed, o.Size%300)...) }
+	body := func(o op) []byte {
+		return append([]byte(fmt.Sprintf("v%d:", o.Seed)), s3c.GenBytes(o.Seed, o.Size%300)...)
+	}
 	setStatus := func(s string) error {
 		r := cl.MustCall("PUT", "/"+b, s3c.Q("versioning", ""), nil, []byte("<VersioningConfiguration><Status>"+s+"</Status></VersioningConfiguration>"))
 		if !r.OK() {
@@ -394,11 +397,15 @@ func checkListing(cl *s3c.Client, b string, stacks map[int][]entry, o op, status
 		Latest  bool
 	}
 	var got []item
+	gotCP := map[string]bool{}
 	km, vm := "", ""
 	for page := 0; ; page++ {
 		q := s3c.Q("versions", "", "max-keys", fmt.Sprint(max))
 		if o.Pfx != "" {
 			q = append(q, s3c.KV{K: "prefix", V: o.Pfx})
+		}
+		if o.Dlm != "" {
+			q = append(q, s3c.KV{K: "delimiter", V: o.Dlm})
 		}
 		if km != "" {
 			q = append(q, s3c.KV{K: "key-marker", V: km})
@@ -414,7 +421,12 @@ func checkListing(cl *s3c.Client, b string, stacks map[int][]entry, o op, status
 		if !r.OK() || s3c.ParseXML(r, &lv) != nil {
 			return fmt.Errorf("%s: ListObjectVersions answers %v", where, r)
 		}
-		n := len(lv.Versions) + len(lv.DeleteMarkers)
+		n := len(lv.Versions) + len(lv.DeleteMarkers) + len(lv.CommonPrefixes)
+		for _, cp := range lv.CommonPrefixes {
+			// (a common prefix repeated on the next page is not held against the listing: the statement is about
+			// versions and markers)
+			gotCP[cp.Prefix] = true
+		}
 		if n > max {
 			return fmt.Errorf("%s: ListObjectVersions page has %d entries, max-keys is %d", where, n, max)
 		}
@@ -440,9 +452,16 @@ func checkListing(cl *s3c.Client, b string, stacks map[int][]entry, o op, status
 	}
 	// expected
 	want := map[string]item{}
+	wantCP := map[string]bool{}
 	for k, stk := range stacks {
-		if !strings.HasPrefix(keyNames[k], o.Pfx) {
+		if !strings.HasPrefix(keyNames[k], o.Pfx) || len(stk) == 0 {
 			continue
+		}
+		if o.Dlm != "" {
+			if i := strings.Index(keyNames[k][len(o.Pfx):], o.Dlm); i >= 0 {
+				wantCP[keyNames[k][:len(o.Pfx)+i+len(o.Dlm)]] = true
+				continue
+			}
 		}
 		for i, e := range stk {
 			want[keyNames[k]+"\x00"+e.ID] = item{keyNames[k], e.ID, e.Marker, i == 0}
@@ -465,6 +484,9 @@ func checkListing(cl *s3c.Client, b string, stacks map[int][]entry, o op, status
 		if w.Latest != g.Latest {
 			return fmt.Errorf("%s: ListObjectVersions flags %s version %s IsLatest=%v, expected %v (stack %s)", where, g.Key, g.ID, g.Latest, w.Latest, dump(stacks))
 		}
+	}
+	if fmt.Sprint(gotCP) != fmt.Sprint(wantCP) {
+		return fmt.Errorf("%s: ListObjectVersions (max-keys %d, prefix %q, delimiter %q) reports the common prefixes %v, expected %v; model %s", where, max, o.Pfx, o.Dlm, gotCP, wantCP, dump(stacks))
 	}
 	if len(seen) != len(want) {
 		var missing []string
@@ -502,6 +524,7 @@ func opGen() *rapid.Generator[op] {
 		if o.Kind == "list" {
 			o.Max = rapid.SampledFrom([]int{1, 2, 3, 1000}).Draw(t, "max")
 			o.Pfx = rapid.SampledFrom([]string{"", "", "a", "dir/"}).Draw(t, "prefix")
+			o.Dlm = rapid.SampledFrom([]string{"", "", "/", "-", "b"}).Draw(t, "delimiter")
 		}
 		return o
 	})
